@@ -40,42 +40,56 @@ from prompt_toolkit.utils import get_cwidth
 
 ID = "C06"
 DRIVER = "drv_c06"
-PROPS = ["Ptk.Props.C06", "Ptk.Props.C06Scroll", "Ptk.Props.C06Diff", "Ptk.Props.C06Lemmas"]
+PROPS = ["Ptk.Props.C06", "Ptk.Props.C06Scroll", "Ptk.Props.C06Wide", "Ptk.Props.C06Diff", "Ptk.Props.C06Lemmas"]
 LEVEL_TEXT = ("Lean 4 theorems over an executable model of the screen differ (_output_screen_diff with "
-              "move_cursor / output_char / get_max_column_index, Renderer render/erase/reset/clear state) "
-              "and of a VT100 terminal: for width-1 cells, executing the differ's output on a terminal that "
-              "shows the previous screen yields the new screen, cursor, SGR reset, cursor visibility and "
-              "autowrap as required, writes stay inside the owned rows/columns, nothing scrolls, and the "
-              "invariant is carried over every finite sequence of renders; the model is tied to /repo on "
-              "every run by a call-by-call correspondence and by a byte-level VT100 interpreter oracle")
-LEVEL_NOTE = ("partial: the terminal is a model (trusted); wide / multi-character cells are covered by the "
-              "correspondence and the oracle only; trusted: Lean kernel, propext/Classical.choice/Quot.sound")
+              "move_cursor / output_char / get_max_column_index, Renderer render/erase/reset/clear state) and of "
+              "a VT100 terminal. For width-1 cells: executing the differ's output on a terminal that shows the "
+              "previous screen yields the new screen, cursor on the screen's cursor, SGR reset, cursor visibility "
+              "and autowrap as required (diff_correct, diff_done, diff_done_scroll); this invariant is carried "
+              "over every finite sequence of render/done/erase/clear (render_seq) and the result is visibly "
+              "identical to a from-scratch draw (incremental_eq_scratch). For arbitrary printable cells (wide, "
+              "multi-character, combining): writes stay inside the owned rows/columns, nothing scrolls, no cursor "
+              "motion passes the margins, over single calls and over sequences (diff_confined_wide, "
+              "no_scroll_wide, render_seq_geo). The model is tied to /repo on every run by a call-by-call "
+              "correspondence, a cross-check of the Lean terminal model against a byte-level VT100 interpreter, "
+              "and the property oracle on real Renderer + Vt100_Output output (also for real PromptSession layouts)")
+LEVEL_NOTE = ("partial: the terminal is a model (trusted); cell CONTENTS of wide / multi-character cells are covered "
+              "by the correspondence and the oracle only; trusted: Lean kernel, propext/Classical.choice/Quot.sound")
 RULE = ("exhaustive: every pair (thorough: triple) of screens over 3 cell kinds {default blank, 'a', styled "
-        "blank} on tiny terminals, inline and full-screen, rendered as a chain incl. a final done render; "
-        "then seeded random chains of <= 8 screens (W<=12, H<=6, wide and multi-char cells, zero-width "
-        "escapes, equal-attrs style ids, grow/shrink, erase/clear/reset, size and style-key changes, depths "
-        "1/4/8/24) and screens produced by real PromptSession layouts during random editing sessions; "
-        "a case is non-trivial when at least two renders draw different non-empty screens")
+        "blank} on tiny terminals, inline and full-screen, rendered as a chain, every third one ending with a done "
+        "render; then seeded random chains of <= 8 screens (W<=12, H<=6, origin below the top, wide and multi-char "
+        "cells, zero-width escapes, equal-attrs style ids, grow/shrink, small edits of the previous screen, "
+        "erase/clear, style-key changes, depths 1/4/8/24), direct differ calls with arbitrary cursor / last style / "
+        "previous width (call correspondence only), Renderer sequences with resizes and bare resets (call "
+        "correspondence only), and screens produced by real PromptSession layouts (completion menus, toolbars, "
+        "multiline, wide prompts) during random editing sessions; a case is non-trivial when at least two renders "
+        "draw different non-empty screens")
 EXHAUSTIVE = True
 EXHAUSTIVE_SCOPE = {"quick": "(W,H) in {(1,1),(2,1),(3,1),(1,2),(2,2)}, 3 cell kinds, all ordered pairs of screens, "
                              "inline + full-screen",
                     "thorough": "same pairs, all ordered triples for (1,1),(2,1),(3,1),(1,2), 12000 sampled pairs for (3,2)"}
 TRUSTED = ["harness/c06.py: recording Output, VT100 interpreter (CR LF BS CUU/CUD/CUF/CUB CUP ED EL SGR DECTCEM "
-           "DECAWM, xterm wide-char overwrite rule), comparison code",
+           "DECAWM alt-screen, xterm wide-char overwrite rule), comparison code",
            "Ptk/Model/C06.lean: hand translation of renderer.py _output_screen_diff / Renderer state "
-           "(correspondence-checked) and the terminal model Term/exec (cross-checked against the byte-level "
-           "interpreter on every case)"]
+           "(correspondence-checked call by call) and the terminal model Term/exec (cross-checked against the "
+           "byte-level interpreter on every comparable case)"]
 ASSUMPTIONS = ["VT100/xterm semantics as modelled (autowrap off: cursor stays on the last column; ED/EL erase "
-               "with the current background; SGR sequences are absolute)",
-               "screens satisfy WFScreen: no written row >= Screen.height (established by Window.write_to_screen)",
+               "with the current background; SGR sequences are absolute; CUU/CUF/CUB clamp)",
+               "screens satisfy WFScreen: no written row >= Screen.height (checked on every real-layout screen; "
+               "theorem wf_needed shows it is necessary)",
                "the default char's style has no colour/underline (attrs_for_style['[transparent]'] is plain)",
                "zero-width escapes do not move the cursor or change cells",
-               "runtime wcwidth is data (Char.width)"]
-PARTIAL_SCOPE = ["theorems cover width-1 single-character cells; wide and multi-character cells are checked by "
-                 "correspondence and oracle only",
+               "runtime wcwidth is data (Char.width); a space is one column wide",
+               "the drawn rows fit between the origin and the bottom of the terminal (otherwise the renderer "
+               "scrolls on purpose to reserve space)"]
+PARTIAL_SCOPE = ["cell contents: theorems cover width-1 single-character cells; for wide and multi-character cells "
+                 "only geometry (confinement, no scroll, cursor, modes) is proved, contents are checked by "
+                 "correspondence and oracle",
                  "alternate-screen switching, mouse/bracketed-paste modes, cursor shape, CPR are modelled as "
                  "calls without terminal semantics",
-                 "terminal resize between renders: only the call sequence is compared (no terminal semantics)"]
+                 "terminal resize between renders: only the call sequence is compared (no terminal semantics)",
+                 "the escape encoders of Vt100_Output are not modelled in Lean: they are exercised by the "
+                 "byte-level interpreter (grid cross-check + oracle)"]
 
 DEPTHS = {1: ColorDepth.DEPTH_1_BIT, 4: ColorDepth.DEPTH_4_BIT, 8: ColorDepth.DEPTH_8_BIT,
           24: ColorDepth.DEPTH_24_BIT}
@@ -1088,6 +1102,18 @@ def oracle(case):
         k = op["op"]
         scrolled0 = vt.scrolled
         vt.writes = []
+        if "scr" in op:
+            # preconditions of the property (a layout never violates them; a shrunk replay might)
+            js = op["scr"]
+            cx0, cy0 = js.get("cur") or [0, 0]
+            if js["h"] > vt.H - vt.top or not (cx0 < max(W, 1) and cy0 < max(1, js["h"])) or \
+                    any(c[0] >= js["h"] for c in js["cells"]):
+                SKIPS.append((f"op#{i}", js["h"], vt.H - vt.top, (cx0, cy0)))
+                if case.get("from_layout") and (any(c[0] >= js["h"] for c in js["cells"]) or cx0 >= max(W, 1)):
+                    # a real layout must establish these: the differ relies on them
+                    v.append(_viol("layout", "screen violates WFScreen / cursor outside the terminal",
+                                   f"op#{i}: height={js['h']} cursor={(cx0, cy0)} rows={sorted({c[0] for c in js['cells']})}"))
+                return v
         rest = ""
         if k == "render" and op.get("done") and "\x1b[?1049l" in data:
             cut = data.index("\x1b[?1049l")      # Renderer.reset() after the done render leaves the alt screen
@@ -1123,16 +1149,6 @@ def oracle(case):
         js, done = op["scr"], bool(op["done"])
         new_h = min(js["h"], H)
         bound = min(max(last_h, js["h"]), H)
-        # preconditions of the property (a layout never violates them; a shrunk replay might)
-        cx0, cy0 = js.get("cur") or [0, 0]
-        if js["h"] > vt.H - vt.top or not (cx0 < max(W, 1) and cy0 < max(1, js["h"])) or \
-                any(c[0] >= js["h"] for c in js["cells"]):
-            SKIPS.append((where, js["h"], vt.H - vt.top, (cx0, cy0)))
-            if case.get("from_layout") and (any(c[0] >= js["h"] for c in js["cells"]) or cx0 >= max(W, 1)):
-                # a real layout must establish these: the differ relies on them
-                v.append(_viol("layout", "screen violates WFScreen / cursor outside the terminal",
-                               f"{where}: height={js['h']} cursor={(cx0, cy0)} rows={sorted({c[0] for c in js['cells']})}"))
-            return v
         shift = vt.scrolled - scrolled0
         if done:
             if shift != legit_shift:
@@ -1412,7 +1428,7 @@ def cases(tier, rng):
         yield from small_cases([(1, 1), (2, 1), (3, 1), (1, 2), (2, 2)], 2)
         yield from small_cases([(1, 1), (2, 1), (3, 1), (1, 2)], 3)
         yield from small_cases([(3, 2)], 2, sample=(rng, 12000))
-        nrand, nfree, nres, nlay = 60000, 15000, 6000, 2500
+        nrand, nfree, nres, nlay = 50000, 15000, 6000, 1200
     for _ in range(nrand):
         yield rand_chain(rng, tier)
     for _ in range(nfree):
